@@ -1,0 +1,93 @@
+//go:build verif
+
+package index
+
+import (
+	"context"
+
+	"github.com/ipld/go-storethehash/store/types"
+)
+
+// VerifGC runs one index GC cycle synchronously (the method is unexported).
+func (idx *Index) VerifGC(ctx context.Context, scanFree bool) (int64, int, error) {
+	return idx.gc(ctx, scanFree)
+}
+
+// VerifBuckets returns a copy of the in-memory bucket table.
+func (idx *Index) VerifBuckets() []types.Position {
+	idx.bucketLk.RLock()
+	defer idx.bucketLk.RUnlock()
+	out := make([]types.Position, len(idx.buckets))
+	copy(out, idx.buckets)
+	return out
+}
+
+// VerifNonEmptyBuckets returns the indexes of buckets that have a non-zero
+// position or pooled data.
+func (idx *Index) VerifNonEmptyBuckets() []BucketIndex {
+	idx.bucketLk.RLock()
+	defer idx.bucketLk.RUnlock()
+	seen := make(map[BucketIndex]struct{})
+	var out []BucketIndex
+	for i, p := range idx.buckets {
+		if p != 0 {
+			seen[BucketIndex(i)] = struct{}{}
+			out = append(out, BucketIndex(i))
+		}
+	}
+	for b := range idx.nextPool {
+		if _, ok := seen[b]; !ok {
+			seen[b] = struct{}{}
+			out = append(out, b)
+		}
+	}
+	for b := range idx.curPool {
+		if _, ok := seen[b]; !ok {
+			seen[b] = struct{}{}
+			out = append(out, b)
+		}
+	}
+	return out
+}
+
+// VerifPools returns copies of the next and current bucket pools.
+func (idx *Index) VerifPools() (next, cur map[BucketIndex][]byte) {
+	idx.bucketLk.RLock()
+	defer idx.bucketLk.RUnlock()
+	cp := func(p bucketPool) map[BucketIndex][]byte {
+		out := make(map[BucketIndex][]byte, len(p))
+		for k, v := range p {
+			out[k] = append([]byte(nil), v...)
+		}
+		return out
+	}
+	return cp(idx.nextPool), cp(idx.curPool)
+}
+
+// VerifBucketRecords returns the raw record-list bytes a reader of the given
+// bucket would see now (next pool, else current pool, else the log record the
+// bucket table points at), and whether the bucket has any record list at all.
+func (idx *Index) VerifBucketRecords(bucket BucketIndex) ([]byte, bool, error) {
+	idx.bucketLk.RLock()
+	defer idx.bucketLk.RUnlock()
+	records, err := idx.getRecordsFromBucket(bucket)
+	if err != nil {
+		return nil, false, err
+	}
+	if records == nil {
+		return nil, false, nil
+	}
+	return append([]byte(nil), records...), true, nil
+}
+
+// VerifFileState returns the number and flushed length of the current index file.
+func (idx *Index) VerifFileState() (uint32, types.Position) {
+	idx.flushLock.Lock()
+	defer idx.flushLock.Unlock()
+	return idx.fileNum, idx.length
+}
+
+// VerifGCResume returns the GC resume cursor.
+func (idx *Index) VerifGCResume() (bool, uint32) {
+	return idx.gcResume, idx.gcResumeAt
+}
